@@ -164,12 +164,19 @@ SPEC["C01"] = {
      - structural soundness of acceptance: an accepted script has balanced brackets, no pending
        command, no pending expectation (C01_accept_final_state); a script is rejected as soon as
        a token does not fit (the machine is a fold over tokens that stops at the first failure).
-   Full statements C01_complete / C01_sound (DESIGN.md Appendix B) relate [parse] to the RFC 5228
-   generic grammar; they are NOT proved here — the executable oracle harness/sieve_spec.py (generic
-   grammar + frozen signatures) is compared with the implementation on the exhaustive token
-   enumeration and the generated scripts by the check, and the model is compared with the
-   implementation on the same inputs.""",
-    "imports": SIEVE_IMPORTS + "From SV Require Import ArgCheckFacts GateFacts PositionFacts TotalFacts CompleteFacts.\n",
+     - completeness for whole scripts (sieve/CompleteTree.v): every sequence of commands derivable in the
+       grammar [wf_cmds] -- `name args ;` with legal, complete arguments; `require` extending the loaded
+       extensions for what follows; controls with one test and a block; tests with arguments, one-test
+       tests (not) and parenthesised test lists (anyof / allof), nested to any depth; blocks nested to
+       any depth; elsif / else only after the commands they must follow -- is accepted, with any layout
+       (C01_script_complete, C01_parse_script, C01_layout_insensitive);
+     - parse_total (props/C02.v): every other outcome is a SieveParseError, never a crash or a hang.
+   The converse (soundness of acceptance with respect to the RFC 5228 generic grammar) is NOT proved in
+   general: the structural theorem C01_accept_final_state is, and the executable oracle
+   harness/sieve_spec.py (generic grammar + frozen signatures) is compared with the implementation on the
+   exhaustive token enumeration, the structure cases and the generated scripts by the check, and the model
+   is compared with the implementation on the same inputs.""",
+    "imports": SIEVE_IMPORTS + "From SV Require Import ArgCheckFacts GateFacts PositionFacts TotalFacts CompleteFacts CompleteTree CompleteExamples.\n",
     "theorems": [
         ("C01_argcheck_correct", "ArgCheckFacts.argcheck_correct",
          "feeding an argument sequence to check_next_arg: complete / incomplete / rejected exactly as the specification says, with the same recorded values"),
@@ -181,6 +188,18 @@ SPEC["C01"] = {
          "completeness for commands without tests and blocks: `name args ;` with legal, complete arguments is accepted (and the node carries exactly the specified maps)"),
         ("C01_action_on_text", "CompleteFacts.parse_single_action",
          "... on texts, for every layout that lexes to these tokens (blanks, line endings)"),
+        ("C01_run_test", "CompleteTree.run_test",
+         "every well-formed test (arguments, not, anyof/allof with nesting) drives the machine to the point where the test is left, with exactly its node"),
+        ("C01_run_cmds", "CompleteTree.run_cmds",
+         "every well-formed command sequence, at top level or inside a block, is consumed and emits exactly its nodes"),
+        ("C01_script_complete", "CompleteTree.script_complete",
+         "whole scripts: accepted from the initial state, ending with an empty stack, nothing expected, balanced brackets"),
+        ("C01_parse_script", "CompleteTree.parse_script",
+         "on texts: any text that lexes to the tokens of a well-formed script parses to exactly its tree"),
+        ("C01_layout_insensitive", "CompleteFacts.layout_insensitive",
+         "two texts that lex to the same tokens (blanks, line endings, positions) get the same verdict, tree and error category"),
+        ("C01_script_example", "CompleteExamples.ex_wf",
+         "non-vacuity on the tables generated from /repo: a script with require, if/elsif/else, anyof, not, nested blocks, tags, numbers and lists is derivable, and its tree is what parse returns"),
         ("C01_accept_final_state", "GateFacts.parse_accept_reachable",
          "an accepted script ends with an empty command stack, balanced brackets and nothing expected"),
         ("raw", """(* which commands of the current tables the interpreter theorem covers (re-checked on every run) *)
@@ -575,6 +594,7 @@ Proof. vm_compute. reflexivity. Qed.
 }
 
 COMPLETE_IMPORTS = SIEVE_IMPORTS + "From SV Require Import ArgCheckFacts PositionFacts TotalFacts RegisterFacts CompleteFacts.\n"
+TREE_IMPORTS = SIEVE_IMPORTS + "From SV Require Import ArgCheckFacts PositionFacts TotalFacts RegisterFacts CompleteFacts CompleteTree CompleteExamples.\n"
 
 SPEC["C03"] = {
     "header": """C03 — accepted scripts are represented faithfully: nothing dropped or invented.
@@ -588,11 +608,18 @@ SPEC["C03"] = {
    (C03_action_faithful): no token is dropped, overwritten, duplicated or attached to another command;
    nothing else in the parser state changes.  On texts: every text that lexes — whatever its layout — to those
    tokens is accepted with that one-node tree (C03_parse_single_action).
-   For tests, test lists, blocks and if/elsif/else chains faithfulness is not proved: every accepted input
-   of the enumerations, structural cases, generated scripts, layouts and mutants is compared with the tree
-   of an independent recursive-descent parser of the RFC 5228 generic grammar (names, nesting, order,
-   every tag with its parameter, nothing else), and the model's tree with the parser's tree.""",
-    "imports": COMPLETE_IMPORTS,
+   Whole scripts (sieve/CompleteTree.v): for every command sequence derivable in the grammar [wf_cmds]
+   (actions, require, controls with a test and a block, tests with arguments, not, anyof / allof, all nested to
+   any depth, elsif / else) the tree returned is EXACTLY the tree of the derivation: every command under
+   its parent in source order, every test in the slot of the command that takes it, every argument map as
+   the specification [legal] assigns it, no node dropped, duplicated or attached elsewhere
+   (C03_run_cmds, C03_parse_script).
+   Outside that grammar (hash comments between commands; keep / setflag / addflag / removeflag / hasflag whose
+   definitions are not [wf_def], see known findings) faithfulness is checked, not proved: every accepted
+   input of the enumerations, structural cases, generated scripts, layouts and mutants is compared with the
+   tree of an independent recursive-descent parser of the RFC 5228 generic grammar, and the model's tree
+   with the parser's tree.""",
+    "imports": TREE_IMPORTS,
     "theorems": [
         ("C03_run_args", "CompleteFacts.run_args",
          "the argument tokens drive the machine exactly as the arguments drive the table interpreter; brackets, loaded extensions, comments and result are untouched"),
@@ -602,6 +629,16 @@ SPEC["C03"] = {
          "with the specification: legal and complete arguments give a node with exactly the specified maps"),
         ("C03_parse_single_action", "CompleteFacts.parse_single_action",
          "on texts: any layout that lexes to these tokens is accepted with exactly this tree"),
+        ("C03_run_args_gen", "CompleteTree.run_args_gen",
+         "arguments of any command (test, control, action), anywhere in the stack"),
+        ("C03_run_test", "CompleteTree.run_test",
+         "a test tree is rebuilt node for node: arguments, the test of `not`, the tests of a test list in order"),
+        ("C03_run_cmds", "CompleteTree.run_cmds",
+         "a command sequence emits exactly its nodes, in order, into the result (top level) or the children of the block owner"),
+        ("C03_parse_script", "CompleteTree.parse_script",
+         "on texts: the tree of the derivation, nothing else"),
+        ("C03_script_example", "CompleteExamples.ex_wf",
+         "non-vacuity on the generated tables"),
         ("raw", r'''(* non-vacuity: vacation with tags, a number, a list and a string, from its text *)
 Example C03_vacation_example :
   parse gen_tables (bs "require ""vacation""; vacation :days 7 :addresses [""a@b"", ""c,d""] :subject ""x\""y"" ""gone"";") =
